@@ -41,7 +41,7 @@ CLAIMED = {
    ref="DESIGN.md 6.3, 7 (C07)",
    note="Trusted: TLC, the simulated cluster (its codec is cross-checked against Wire.tla). Connection management is abstracted (reachable brokers connect at once); 3 brokers, 2 bootstrap hosts, 3 partitions, <=2 concurrent operations in the exhaustive model."),
  "C08": dict(
-   text="Same specification and executions as C07, judged on the clauses of C08: after every metadata answer the public accessors (topic_partitions, topics_to_brokers, topic_errors, coordinator) must equal the model's cache, uncovered topics untouched; clients of brokers missing from a full refresh are closed; error codes 3/6, coordinator errors and failed payloads invalidate exactly what the model says; every reconnect attempt goes to the address of the latest metadata (re-addressed brokers, including port-only changes).",
+   text="Same specification and executions as C07, judged on the clauses of C08: after every metadata answer the public accessors (topic_partitions, topics_to_brokers, topic_errors, coordinator) must equal the model's cache, uncovered topics untouched; clients of brokers missing from a full refresh are closed; error codes 3/6, coordinator errors and failed payloads invalidate exactly what the model says; every reconnect attempt goes to the address of the latest metadata (re-addressed brokers, including port-only changes). For the resumption sentence the real Consumer is run over this client on the simulated cluster (leader moves, broker restarts, error answers) and Consumer.tla decides what it must do with every failed fetch (retry after the documented backoff, within its attempt limit).",
    ref="DESIGN.md 6.3, 7 (C08)",
    note="Trusted as C07. The liveness sentence (producing/consuming resume after faults cease) is exercised on finite executions only: random schedules end with faults ceased and the operations must complete as the model predicts; no temporal property is model-checked."),
  "C11": dict(
